@@ -295,6 +295,10 @@ def _p_step(tier):
     # key path with a flag byte: every single permission bit and some mixed masks (the flag byte itself is symbolic)
     more = (0x20, 0x40, 0x80, 0x5a) if tier == 'quick' else (0x04, 0x08, 0x10, 0x20, 0x40, 0x80, 0x5a, 0xa5, 0x7f, 0xfe)
     out += [{'shape': [65], 'allowed': a} for a in more if a not in als]
+    # the operand byte must be consumed on every path: operand values that are harmful as *opcodes* if it were left on the tape
+    # (2e = OP_NOT turns the pushed false into true, 25 / 27 = timestamp / epoch checks, 21 = OP_EQUAL, 06 = OP_POP0)
+    ops = (0x2e, 0x25, 0x06) if tier == 'quick' else (0x2e, 0x25, 0x27, 0x21, 0x3f, 0x06, 0x26, 0x28, 0x56, 0x57)
+    out += [{'shape': sh, 'allowed': a} for a in ops for sh in ([2, 32], [3, 32], [1, 2, 32])]
     return out
 
 
